@@ -279,6 +279,11 @@ func init() {
 		return args[0].(structure)[0].(uint64) == 0
 	})
 	reg("(time.Time).Equal", func(i *interpreter, fr *frame, args []value) value {
+		// the zero Time (year 1) is no instant time.Unix(0, int64) can denote
+		za, zb := args[0].(structure)[0].(uint64) == 0, args[1].(structure)[0].(uint64) == 0
+		if za != zb {
+			return false
+		}
 		return binopEq(timeNanos(args[0]), timeNanos(args[1]))
 	})
 	reg("(time.Duration).String", func(i *interpreter, fr *frame, args []value) value {
